@@ -100,7 +100,9 @@ func GenesisTx(vals []*polyenv.Acct, chainID uint64, raw []byte) *types.Transact
 	return polyenv.Tx(utils.HeaderSyncContractAddress, hscommon.SYNC_GENESIS_HEADER, sink.Bytes(), NextNonce(), polyenv.Multi(vals))
 }
 
-func HeadersTx(chainID uint64, raws ...[]byte) *types.Transaction { return hsenv.HeadersTx(chainID, raws...) }
+func HeadersTx(chainID uint64, raws ...[]byte) *types.Transaction {
+	return hsenv.HeadersTx(chainID, raws...)
+}
 
 func CrossMsgTx(chainID uint64, msgs ...[]byte) *types.Transaction {
 	relayer := polyenv.Key(30)
@@ -205,7 +207,9 @@ type OntSigCache struct {
 	m    map[string][]byte
 }
 
-func NewOntSigCache(hash []byte) *OntSigCache { return &OntSigCache{hash: hash, m: map[string][]byte{}} }
+func NewOntSigCache(hash []byte) *OntSigCache {
+	return &OntSigCache{hash: hash, m: map[string][]byte{}}
+}
 
 func (c *OntSigCache) Sig(k *polyenv.Acct, bad bool) []byte {
 	id := fmt.Sprintf("%s/%v", k.PubHex, bad)
